@@ -27,7 +27,7 @@ func (f *Frame) addrKeys(v ssa.Value, keys map[string]bool) {
 	switch x := v.(type) {
 	case *ssa.Alloc:
 		if !x.Heap {
-			keys[fmt.Sprintf("L:%p:%s", f, x.Name())] = true
+			keys[fmt.Sprintf("L:f%d:%s", f.fnum(), x.Name())] = true
 			return
 		}
 	case *ssa.FieldAddr:
@@ -364,7 +364,7 @@ func (f *Frame) loopModifies(l *Loop) map[string]bool {
 							keys[f.compKey("D:", sortTag(srt), srt)] = true
 						}
 					} else if g == f {
-						keys[fmt.Sprintf("L:%p:%s", f, x.Name())] = true
+						keys[fmt.Sprintf("L:f%d:%s", f.fnum(), x.Name())] = true
 					}
 				case *ssa.MakeSlice:
 					if f.vc.sorts.sortOf(x.Type()) == sSl {
